@@ -83,6 +83,7 @@ func installFineHooks(sc *Sched, on map[string]bool, count func(string)) {
 			return
 		}
 		count("fine.parks")
+		count("fine.parks@" + site[strings.LastIndex(site, ":")+1:])
 		sc.yieldTask(t, "fine:"+site[strings.LastIndex(site, "/")+1:], true)
 	}
 	verifhook.BeforeLockFnHook = func(tryLock func() bool, unlock func(), site string) {
@@ -120,10 +121,10 @@ func genFineSites(t *rapid.T, filter string) []string {
 	if len(cand) == 0 {
 		return nil
 	}
-	switch rapid.IntRange(0, 3).Draw(t, "fineMode") {
+	switch rapid.IntRange(0, 7).Draw(t, "fineMode") {
 	case 0:
 		return nil
-	case 1, 2: // every site of one function (functions drawn uniformly, so that small ones get their turn)
+	case 1, 2, 3, 4, 5: // sites of one function (functions drawn uniformly, so that small ones get their turn)
 		byFn := map[string][]string{}
 		var fns []string
 		for _, s := range cand {
@@ -133,7 +134,18 @@ func genFineSites(t *rapid.T, filter string) []string {
 			}
 			byFn[k] = append(byFn[k], s)
 		}
-		return byFn[rapid.SampledFrom(fns).Draw(t, "fineFunc")]
+		all := byFn[rapid.SampledFrom(fns).Draw(t, "fineFunc")]
+		if rapid.IntRange(0, 4).Draw(t, "fineAll") < 2 {
+			return all // every statement boundary of the function
+		}
+		// one to three of them: the other tasks pass through the function undisturbed while one
+		// is held at the chosen boundary
+		n := rapid.IntRange(1, 3).Draw(t, "nFineOfFunc")
+		var out []string
+		for i := 0; i < n; i++ {
+			out = append(out, rapid.SampledFrom(all).Draw(t, "fineSite"))
+		}
+		return out
 	default:
 		n := rapid.IntRange(1, 8).Draw(t, "nFine")
 		var out []string
